@@ -253,6 +253,9 @@ def build_harness():
         if os.path.lexists(link):
             os.remove(link)
         os.symlink(REPO, link)
+        # the dependency path stays `repo`, so cargo's mtime fingerprint cannot see that the sources
+        # behind the link changed (VERIF_REPO switch): force chrono to be rebuilt
+        sh('cargo clean --release --offline -p chrono 2>&1', cwd=hdir, timeout=300)
     lock = os.path.join(hdir, 'Cargo.lock')
     if not os.path.exists(lock):
         shutil.copy(os.path.join(REPO, 'Cargo.lock'), lock)
@@ -581,6 +584,11 @@ class Check:
         cases, gen = self.gen_cases(tier)
         t = time.time()
         impl, model, verdicts = self.run_both(cases)
+        rf = getattr(gen, 'refine', None)
+        if rf:
+            # optional generator hook: aggregate cases (checksummed ranges) that failed are re-run as
+            # the individual cases they stand for; returns the four lists to decide on
+            cases, impl, model, verdicts = rf(cases, impl, model, verdicts, self.run_both)
         self.cov['run_s'] = round(time.time() - t, 1)
         known = load_known(self.pid)
         dist = {}
